@@ -46,7 +46,8 @@ class DiscStorage:
 
     def persist(self, name):
         try:
-            file = self._lookup_path(name)
+            # a full hash (hash-length = 64) has no "*" which could match the "-new" part
+            file = self._lookup_path(external(name)._path)
         except HashError:
             return
         if file.stem.endswith("-new"):
